@@ -114,6 +114,12 @@ POSITION_CORPUS = [
     'assert("u\nv" == nosuch_m)\n',
     '"a\nb" // trailing \u00e9\nnosuch_n()\n',
     '\n\n   "w\n\tx"\t\tnosuch_o()',
+    # escapes inside multi-line strings: an invalid escape is reported with the position of the whole literal
+    'let s = "caf\u00e9 \\q\nau lait"\n',
+    'let s = "caf\u00e9 \\\\\nau \\q lait"\n',
+    'let s = "caf\u00e9 \\\nau lait"\n',
+    'let s = "one \\\ntwo \\\nthree" nosuch_p()\n',
+    '"x\\\n" nosuch_q()\n',
 ]
 BOUNDED = [
     {"name": "quick_fix_ranges", "kind": "lsp-fix-ranges", "props": ["C23"], "input": common.LSP_FIX_PROGRAMS, "n_inputs": len(common.LSP_FIX_PROGRAMS), "bound": common.LSP_FIX_BOUND, "expect": {}},
